@@ -25,6 +25,29 @@ def report(ctx, fails):
                         tags=dict(masked=mask is not None))
 
 
+def ulp_step_fails():
+    """'strictly increasing' means every step is positive, however small: three ramp cycles, the middle one with a step of ONE unit in
+    the last place, all meet every criterion.  returns [(site, detail, phase)]"""
+    from emd import cycles
+    base = np.linspace(0.1, 6.2, 12)
+    seg = base.copy()
+    seg[1] = np.nextafter(seg[0], 7.0)          # 0.1 + 1.4e-17: a positive step far below machine epsilon
+    ph = np.r_[base, seg, base]
+    fails = []
+    good = np.asarray(cycles.get_cycle_vector(ph, return_good=True)).reshape(-1)
+    exp = np.repeat([0, 1, 2], 12)
+    if not np.array_equal(good, exp):
+        fails.append(('get_cycle_vector(return_good=True)', 'a cycle whose phase rises by one unit in the last place at one step (all steps '
+                      'positive, both edges within tolerance) is not labelled good: labels %s' % sorted(set(good.tolist())), ph.tolist()))
+    if not bool(cycles.is_good(seg)):
+        fails.append(('is_good', 'a strictly increasing phase with one step of one unit in the last place is judged not good', seg.tolist()))
+    fl = list(np.asarray(cycles.Cycles(ph).metrics['is_good']).astype(int))
+    if fl != [1, 1, 1]:
+        fails.append(("Cycles.metrics['is_good']", 'container flags %s for three cycles that meet every criterion (one has a one-ulp step)' % fl,
+                      ph.tolist()))
+    return fails
+
+
 def run(ctx):
     lengths = range(2, 7) if ctx.quick() else range(2, 9)
     ctx.rule = ('every phase sequence of length %d..%d over {0.25,1.5,3,4.5,6.25} x (phase_step, phase_edge) in '
@@ -32,6 +55,9 @@ def run(ctx):
                 "Cycles container's is_good flags vs the model (block hashes); random series with random/block/all-true "
                 'masks as explicit cases; non-trivial = at least one wrap' % (min(lengths), max(lengths)))
     ctx.proof(extra=['props/Prop_Tie_Cycles.v', 'props/Prop_Tie_Cyclesobj.v'])  # translation ties: programs regenerated from the source + refinement theorems (Cycles.__init__ computes the container flags)
+    for site, detail, ph in ulp_step_fails()[:1]:
+        ctx.problem('impl-violation', site, detail, input=dict(ulp_step=True, phase=ph), tags=dict(masked=False))
+    ctx.count(('ulp-step',), True, 'ulp-step')
     f12, f13, bad = cvx.enumerate_domain(ctx, lengths, CFGS)
     ctx.exhaustive = True
     report(ctx, f13)
@@ -67,6 +93,10 @@ def run(ctx):
 
 def replay(rec):
     inp = rec['input']
+    if inp.get('ulp_step'):
+        f = ulp_step_fails()
+        print(f[:1])
+        return bool(f)
     mask = inp.get('mask')
     _, b = cvx.oracle_all(inp['phase_codes'], CFGS, None if mask is None else [bool(x) for x in mask])
     for f in b:
